@@ -14,6 +14,7 @@ CONSTANTS
   Modes <- AllModes
   Pairs = TRUE
   SWs <- BothSW
+  SameWriter = FALSE
   PoolAny = TRUE
   Bug = "none"
   Emit = FALSE
